@@ -35,6 +35,7 @@ import collections
 
 from ..core    import Result, digest
 from ..harness import rp, ru, rps, rpc, NullLog, NullProf, make_tmgr, make_task
+from ..harness import FINAL_STATES
 from ..        import memzmq
 
 import radical.pilot.staging_directives           as m_sd       # noqa
@@ -331,7 +332,7 @@ class Pipeline(object):
                     self.excs[thing['uid']] = str(thing['exception'])[:300]
 
     def finals(self, uid):
-        return {s for s in self.states[uid] if s in rps.FINAL}
+        return {s for s in self.states[uid] if s in FINAL_STATES}
 
     def logged(self):
         out = list()
